@@ -71,6 +71,11 @@ var c06sTerms = func() []c06sTerm {
 		{`.unit:/^u[ab]$/`, func(r *refRes, i int) bool { return unitIs(r, i, reMatch("^u[ab]$")) }},
 		{`.unit:/^(ub|ns.op)$/`, func(r *refRes, i int) bool { return unitIs(r, i, reMatch("^(ub|ns.op)$")) }},
 		{`.unit:ua`, func(r *refRes, i int) bool { return unitIs(r, i, func(s string) bool { return s == "ua" }) }},
+		// a pure literal anchored at both ends is an equality test, not a substring test: b22 contains b2, ua contains u
+		{`k:/^b2$/`, func(r *refRes, i int) bool { return r.cfg["k"] == "b2" }},
+		{`k:/b2/`, func(r *refRes, i int) bool { return strings.Contains(r.cfg["k"], "b2") }},
+		{`.unit:/^u$/`, func(r *refRes, i int) bool { return false }},
+		{`.fullname:/^X$/`, func(r *refRes, i int) bool { return r.full == "X" }},
 	}
 }()
 
